@@ -104,15 +104,23 @@ static CO_ERR COTSdoIdWrite(struct CO_OBJ_T *obj, struct CO_NODE_T *node, void *
 
 static CO_ERR COTSdoIdInit(struct CO_OBJ_T *obj, struct CO_NODE_T *node)
 {
-    CO_ERR result = CO_ERR_TYPE_INIT;
+    CO_ERR   result = CO_ERR_TYPE_INIT;
+    uint16_t num;
 
-    CO_UNUSED(node);
     ASSERT_PTR_ERR(obj, CO_ERR_BAD_ARG);
+    ASSERT_PTR_ERR(node, CO_ERR_BAD_ARG);
 
     if ((CO_GET_IDX(obj->Key) >= COT_OBJECT) &&
         (CO_GET_IDX(obj->Key) <= COT_OBJECT + COT_OBJECT_NUM)) {
         if ((CO_GET_SUB(obj->Key) == 1) ||
             (CO_GET_SUB(obj->Key) == 2)) {
+            /* the stored parameters are loaded by now: a server works
+             * with the COB-IDs its communication record holds
+             */
+            num = (uint16_t)(CO_GET_IDX(obj->Key) - COT_OBJECT);
+            if (num < (uint16_t)CO_SSDO_N) {
+                COSdoEnable(node->Sdo, (uint8_t)num);
+            }
             result = CO_ERR_NONE;
         }
     }
